@@ -183,7 +183,11 @@ def main(argv):
     ck.stats["oracle_self_validation_residuals"] = val
     if max(val.values()) > 1e-10:
         ck.correspondence_broken("ewald_oracle self-validation", str(val))
-    ck.translate("gen_ewald2d")
+    tr = ck.translate("gen_ewald2d")
+    if tr is not None:
+        import gen_ewald2d
+        ck.stats["einsum_sites_typed"] = len(tr["contractions"])
+        ck.stats["einsum_sites_left_to_the_oracle_untyped"] = list(gen_ewald2d.UNTYPED)
     ck.coq_build("C11", THEOREMS)
     if not ck.replay:
         check_axes(ck)
